@@ -8,7 +8,7 @@ Line protocol (one operation per line, the world has 4 grammar slots 0..3; `-` =
   upd <dst> <src> <excluded> <0|1>
   names <s> <names> <0|1>
   types <s> <n=pytype,..> <0|1>        pytype: any nd list tuple str int float complex bool dict none
-  data <s> <n=value,..> <0|1>          value: z b i f s d c | nd:<leaves> | l:<leaves> | t:<leaves>   leaves: z b i f s d L
+  data <s> <n=value,..> <0|1>          value: z b i f s d c | nd:<leaves> | l:<leaves> | t:<leaves>   leaves: z b i f s d D L   (D: a dict with nested values)
   schema <s> <n=jtype,..> <required|-> <0|1>   jtype: * or `+`-joined Z B I N S O A A[<`/`-joined Z B I N S O A>]
   restrict <s> <names> | rename <s> <cur> <new> | del <s> <n> | addns <s> <n> <ns> | clear <s>
   copy <src> <dst> | pickle <src> <dst>
@@ -41,7 +41,7 @@ def showPyT : PyT → String
 
 def parseLeaf : Char → Option Leaf
   | 'z' => some .null | 'b' => some .bool | 'i' => some .int | 'f' => some .flt
-  | 's' => some .str | 'd' => some .map | 'L' => some .arr
+  | 's' => some .str | 'd' => some .map | 'D' => some .map | 'L' => some .arr
   | _ => none
 
 def parseVal (s : String) : Option Val :=
@@ -164,6 +164,8 @@ def parseOp (toks : List String) : Option Op :=
   | ["clear", s] => do some (.clear (← s.toNat?))
   | ["copy", s, d] => do some (.copy (← s.toNat?) (← d.toNat?))
   | ["pickle", s, d] => do some (.pickle (← s.toNat?) (← d.toNat?))
+  -- `copy.deepcopy` goes through `__getstate__`/`__setstate__` like pickling
+  | ["dcopy", s, d] => do some (.pickle (← s.toNat?) (← d.toNat?))
   | ["setdef", s, n, v] => do some (.setdef (← s.toNat?) n v)
   | ["deldef", s, n] => do some (.deldef (← s.toNat?) n)
   | ["defaults", s, l] => do some (.defaults (← s.toNat?) (← parseKVs l))
